@@ -185,6 +185,8 @@ def showErr : Err → String
   | .indirect => "err indirect"
   | .negIndex => "err negindex"
   | .substr n => "err substr " ++ toString n
+  | .assocSubscript => "err assocsubscript"
+  | .quote => "err quote"
   | .unsupported => "err unsupported"
   | .panic => "panic"
 
